@@ -103,7 +103,7 @@ def _sample_reg(rnd, with_val):
 # -------------------------------------------------------------------------------------------------------------------
 # bit-fields: complete enumeration of (offset, width) in a 32-bit register, boundary pairs in 8/16/64-bit registers
 # -------------------------------------------------------------------------------------------------------------------
-PROC = Union[Obj(ConfigProcessor), Obj(ShiftRightConfigProcessor, count=OneOf(1, 4))]
+PROC = Union[Obj(ConfigProcessor), Obj(ShiftRightConfigProcessor, count=OneOf(1, 8))]
 
 
 def bitfield(width_reg, offsets, widths, rev=False):
@@ -144,7 +144,7 @@ def _sample_bf(rnd, with_val):
     r._value = rnd.getrandbits(w)
     off = rnd.randrange(0, w)
     width = rnd.randrange(1, w - off + 1)
-    cp = rnd.choice([None, None, ShiftRightConfigProcessor(rnd.choice([1, 2, 4]))])
+    cp = rnd.choice([None, None, ShiftRightConfigProcessor(rnd.choice([1, 8]))])
     bf = object.__new__(RegsBitField)
     bf.parent, bf.offset, bf.width, bf.config_processor = r, off, width, cp or ConfigProcessor()
     d = {"self": bf}
